@@ -449,3 +449,8 @@ def test_c19_field_object_taken_over_by_a_second_class():
     a = A.from_dict(d)
     b = B(n=1, x=3.5, y=8)
     assert (a.x, a.y) == (2.5, 7) and (b.n, b.x, b.y) == (1, 3.5, 8)
+
+
+def test_c16_form_feed_is_text_not_a_line_end():
+    src = 'char* s = "a\x0cb"; /* page\x0bbreak */\n'
+    assert xo.specialize_source(src, "cpu_serial") == src
